@@ -62,12 +62,32 @@ class ClockFault(Exception):
     mistaken for the watch rejecting a call)."""
 
 
+def clock_numbers(ctype, steps):
+    """(first reading, steps) in the number type the clock hands out: floats
+    (time.monotonic), large integers (a nanosecond counter months after
+    boot: beyond 2**53 not every integer is a float), exact fractions,
+    decimals."""
+    if ctype == 'bigint':
+        return 2 ** 60 + 1, [int(s) if abs(s) >= 1 else
+                             (1 if s > 0 else -1 if s < 0 else 0)
+                             for s in steps]
+    if ctype == 'fraction':
+        import fractions
+        return (fractions.Fraction(1024) + fractions.Fraction(1, 3),
+                [fractions.Fraction(s) for s in steps])
+    if ctype == 'decimal':
+        import decimal
+        return (decimal.Decimal(1024) + decimal.Decimal('0.1'),
+                [decimal.Decimal(s) for s in steps])
+    return 1024.0, steps
+
+
 class SimClock:
     fail_next = False
     fired = False
 
-    def __init__(self, pattern, steps):
-        self.t = 1024.0
+    def __init__(self, pattern, steps, ctype=None):
+        self.t, steps = clock_numbers(ctype, steps)
         self.steps = steps
         self.k = 0
         self.log = []
@@ -80,7 +100,7 @@ class SimClock:
         if s < 0:
             self.went_back = True
         else:
-            self.total_advance += s
+            self.total_advance += float(s)
         self.t += s
 
     def read(self):
@@ -303,7 +323,9 @@ class C13(Check):
     PROBES = ('clock_backwards_while_running', 'illegal_call',
               'split_after_resume', 'maximum_clamped', 'expired_true',
               'leftover_zero', 'watch_transported', 'transport_unsupported',
-              'clock_failure_not_propagated', 'call_on_second_watch')
+              'clock_failure_not_propagated', 'call_on_second_watch',
+              'watch_forked', 'clock_hands_out_bigint',
+              'clock_hands_out_fraction', 'clock_hands_out_decimal')
 
     def setup(self):
         core.import_sut()
@@ -351,7 +373,22 @@ class C13(Check):
             if ops[k][0] != 'transport':
                 ops[k] = [ops[k][0], ops[k][1], 'clock_fails']
         case2 = {}
-        if xrng.random() < 0.1:
+        if xrng.random() < 0.12:
+            # (no Decimal clocks: the pinned tree mixes its readings with
+            # float literals - max(0.0, ...) - and a float minus a Decimal
+            # is a TypeError in Python itself, e.g. in split() after a
+            # stalled clock)
+            case2['clock_type'] = xrng.choice(('bigint', 'bigint',
+                                               'fraction'))
+        fork_at = None
+        if xrng.random() < 0.08:
+            fork_at = xrng.randint(0, len(ops))
+            ops.insert(fork_at, ['fork', xrng.choice(TRANSPORTS)])
+            ops = ops[:fork_at + 1] + [
+                (list(o) + [None] * (3 - len(o)) + [1])
+                if xrng.random() < 0.5 and o[0] != 'transport' else o
+                for o in ops[fork_at + 1:]]
+        elif xrng.random() < 0.1:
             # a second watch alive at the same time: what is done to one
             # must not show in the other
             case2['duration2'] = xrng.choice(DURATIONS)
@@ -359,14 +396,25 @@ class C13(Check):
                    if xrng.random() < 0.45 else o for o in ops]
         crng = st('clock')
         pattern = crng.choice(PATTERNS)
-        return dict({'duration': st('config').choice(DURATIONS),
+        dur = st('config').choice(DURATIONS)
+        if case2.get('clock_type') == 'bigint' and \
+                st('config').random() < 0.4:
+            # a deadline on the counter's own scale: not every integer of
+            # that size is a float
+            dur = 2 ** 62 + st('config').choice((1, 3, 5, 7))
+        return dict({'duration': dur,
                      'pattern': pattern, 'steps': gen_steps(crng, pattern),
                      'ops': ops}, **case2)
 
     def execute(self, case):
         log = core.EventLog()
         tu = self.tu
-        clock = SimClock(case['pattern'], case['steps'])
+        clock = SimClock(case['pattern'], case['steps'],
+                         case.get('clock_type'))
+        if case.get('clock_type'):
+            bump_later = case['clock_type']
+        else:
+            bump_later = None
         stats = {'faults': {}, 'probes': {}, 'families': {}, 'sim': {},
                  'distinct': []}
         fa, pr = stats['faults'], stats['probes']
@@ -378,6 +426,8 @@ class C13(Check):
         def viol(cls, **d):
             if len(viols) < 3:
                 viols.append({'cls': cls, 'detail': d})
+        if bump_later:
+            bump(pr, 'clock_hands_out_' + bump_later)
         old_now = tu.now
         tu.now = clock.read
         trans = set()
@@ -393,7 +443,19 @@ class C13(Check):
             resumeds = [False for _d in durs]
             for i, item in enumerate(case['ops']):
                 op, arg = item[0], item[1]
-                wi = item[3] if len(item) > 3 and item[3] < len(durs) else 0
+                wi = item[3] if len(item) > 3 and item[3] < len(watches) \
+                    else 0
+                if op == 'fork':
+                    # a copy is taken and BOTH go on being used
+                    if len(watches) == 1:
+                        try:
+                            watches.append(transport(watches[0], arg))
+                            models.append(copy.deepcopy(models[0]))
+                            resumeds.append(resumeds[0])
+                            bump(pr, 'watch_forked')
+                        except Exception:
+                            bump(pr, 'transport_unsupported')
+                    continue
                 if wi:
                     bump(pr, 'call_on_second_watch')
                 watch, model, resumed = watches[wi], models[wi], resumeds[wi]
@@ -493,7 +555,7 @@ class C13(Check):
                              state=st_before, duration=case['duration'])
                         break
                     if op == 'splits':
-                        prev = 0.0
+                        prev = 0
                         for (e, ln) in gv:
                             if e < prev or ln != e - prev:
                                 viol('splits_not_successive_differences',
@@ -509,8 +571,8 @@ class C13(Check):
                         # whatever the clock did, a split's length is the
                         # (clamped) difference of the RECORDED elapsed values
                         prev_e = model.splits[-2][0] \
-                            if len(model.splits) > 1 else 0.0
-                        if gv[1] != max(0.0, gv[0] - prev_e):
+                            if len(model.splits) > 1 else 0
+                        if gv[1] != max(0, gv[0] - prev_e):
                             viol('split_length_not_difference_of_recorded',
                                  index=i, split=list(gv), previous=prev_e)
                             break
@@ -570,7 +632,7 @@ class C13(Check):
             c['steps'] = case['steps'][:len(case['steps']) // 2]
             yield c
         for i, item in enumerate(ops):
-            if item[0] != 'transport' and item[1] not in (None, False):
+            if item[0] not in ('transport', 'fork') and item[1] not in (None, False):
                 c = copy.deepcopy(case)
                 c['ops'][i][1] = None
                 yield c
